@@ -26,7 +26,7 @@ ID = "C17"
 LEVEL = "model_checking"
 ENGINE = "E2 parse-history enumeration in forked pristine images + E4 preemption-bounded thread schedules"
 RULE = (
-    "E2: every sequence of <= D parses over a 9-text corpus, each sequence in a process forked from a pristine parent, every "
+    "E2: every sequence of <= D parses over a 13-text corpus, each sequence in a process forked from a pristine parent, every "
     "parse compared with the fresh-interpreter baseline of its text. E4: ordered pairs of corpus texts x {cold, warm memo tables} "
     "x both start orders x EVERY switch point (preemption bound 1; thorough adds opcode granularity and bound 2 at call "
     "granularity); distinct = distinct history or distinct (pair, configuration, schedule); non-trivial = history of >= 2 parses "
@@ -53,12 +53,21 @@ CORPUS = {
     "no-events": ("".join(mk(res=12, sync=SYNC, events=EV, tracks={"ExpertSingle": T_B}).partition("[Events]")[0:1]) + "[ExpertSingle]\n{\n  0 = N 0 0\n}\n", None),
     "crlf": (mk(res=12, sync=SYNC, events=EV, tracks={"ExpertSingle": T_A}, nl="\r\n"), None),
     "selected": (mk(res=12, sync=SYNC, events=EV, tracks=[("ExpertSingle", T_A), ("HardDrums", T_B), ("junk", ["x"])]), [["GUITAR", "EXPERT"]]),
+    # same resolution and same second tempo line as sus-a but another tempo history before it: collides with
+    # sus-a on every memo key built from (resolution, tempo, tempo tick, tick)
+    "retimed": (mk(res=12, sync=["0 = TS 4", "0 = B 100000", "6 = B 90000"], events=EV, tracks={"ExpertSingle": T_A}), None),
+    # [Song] values that collide ACROSS kinds between the two texts ("7" as a number / as a string, "rhythm" as
+    # Player2 / as a string): a conversion memo shared by fields shows only in the history meta-a, meta-b (or b, a)
+    "meta-a": (mk(res=12, song_extra=["Offset = 7", "Player2 = rhythm", "Difficulty = 3"], sync=SYNC, events=EV, tracks={"ExpertSingle": T_S}), None),
+    "meta-b": (mk(res=12, song_extra=['Name = "7"', 'Genre = "rhythm"', 'Year = "3"'], sync=SYNC, events=EV, tracks={"ExpertSingle": T_S}), None),
+    # fails inside the note loop of its SECOND track after two notes were built (unsorted over a tempo change)
+    "fail-mid-track": (mk(res=100, sync=SYNC, events=EV, tracks=[("ExpertSingle", T_A), ("HardSingle", ["0 = N 0 0", "8 = N 1 0", "4 = N 2 0"])]), None),
 }
 NAMES = list(CORPUS)
 BASELINE = {}
 
-PAIRS_QUICK = [("sus-a", "sus-b"), ("single", "fail-late")]
-PAIRS_THOROUGH = PAIRS_QUICK + [("sus-a", "res-100"), ("sus-b", "sus-b"), ("fail-late", "sus-a"), ("selected", "crlf"), ("fail-sync", "single"), ("no-events", "sus-a"), ("res-100", "single")]
+PAIRS_QUICK = [("sus-a", "sus-b"), ("single", "fail-late"), ("sus-a", "retimed")]
+PAIRS_THOROUGH = PAIRS_QUICK + [("fail-mid-track", "sus-a"), ("meta-a", "meta-b"), ("sus-a", "res-100"), ("sus-b", "sus-b"), ("fail-late", "sus-a"), ("selected", "crlf"), ("fail-sync", "single"), ("no-events", "sus-a"), ("res-100", "single")]
 
 
 def setup():
@@ -273,10 +282,13 @@ def _sched_shard(shard):
         judge(out, switches)
         if check_det:
             out2, steps2, by2, sig2 = _execute(a, b, cfg, first, gran, switches, tables)
-            if (sig2, out2) != (sig, out) and cfg == "cold":
-                raise core.HarnessFault("nondeterminism: schedule %r replayed with a different step signature or observation" % (switches,))
-            if cfg == "warm" and out2 != out:
-                raise core.HarnessFault("nondeterminism: schedule %r replayed with different observations" % (switches,))
+            if out2 != out:
+                # the same schedule, replayed, gives another observation: state outside the memo tables the
+                # harness resets leaks from one execution into the next - a history dependence of the code
+                if len(violations) < 3:
+                    violations.append(dict(key="history-dependent", case=dict(kind="sched", a=a, b=b, cfg=cfg, first=first, gran=gran, switches=list(switches), twice=True), msg="the same schedule %r of concurrent parses of %r and %r, executed twice in one process, yields different observations: parsing depends on what was parsed before" % (list(switches), a, b), script=SCHED_SCRIPT))
+            elif sig2 != sig and cfg == "cold":
+                hist["step_signature_differs_on_replay(hidden state outside functools memo tables)"] = hist.get("step_signature_differs_on_replay(hidden state outside functools memo tables)", 0) + 1
         return out, steps, by
 
     # bound 0: thread `first` runs to completion, then the other
